@@ -3,6 +3,7 @@ from checks.tsutil import *
 from checks.actorgen import *
 
 ID = 'C02'
+LEAN_MODULES = ['C02', 'C02b']
 RULE = ('one case = a real KeyspaceGroup/KeyspaceActor over a fault-injecting Storage wrapper (around MemStore; SQLite file in thorough) and 1-30 requests: Set / Del / MultiSet / MultiDel / PurgeDeletes '
         'with arbitrary stamps (older, newer, beyond the forgiveness window, 1-3 origins), both sources, any arrival order, bulk sizes 0-6; storage failures injected at every kind of point: single call fails, '
         'bulk call writes an arbitrary sub-list and reports it, tombstone removal partially fails. After EVERY request the set (Serialize -> diff against empty) and the store (iter_metadata) are printed: '
